@@ -30,6 +30,10 @@ type WireOptions struct {
 	// client remembers for 0-RTT are the server's new transport parameters: STREAM frames in 0-RTT packets (the
 	// observer opens them when it was given the resumption PSK) are held to the same limits as 1-RTT ones.
 	ZeroRTTSameLimits bool
+	// ZeroRTTAccepted: the client reports that the server accepted its 0-RTT data (ConnectionState().Used0RTT) in a
+	// scenario in which nothing entitles the server to reject it; enables the "intact packets are opened by the peer"
+	// check for 0-RTT packets (openedByPeerCheck).
+	ZeroRTTAccepted bool
 }
 
 func space(kind string) string {
@@ -309,11 +313,271 @@ func (w *World) WireCheck(opt WireOptions) []WireFinding {
 		out = append(out, ackDueCheck(log, opt.AliveUntil)...)
 	}
 
+	// ---- C05(d): a packet the sender protected correctly (the observer opens it with independently derived keys) that
+	// reaches the peer intact while the peer holds the keys of that level is opened by the peer: the peer acknowledges it.
+	{
+		fs, judged := openedByPeerCheck(log, opt)
+		out = append(out, fs...)
+		w.mu.Lock()
+		if w.Judged == nil {
+			w.Judged = map[string]int{}
+		}
+		for k, v := range judged {
+			w.Judged[k] += v
+		}
+		w.mu.Unlock()
+	}
+
 	// ---- C04(c): senders stay within the limits delivered to them.
 	if !opt.SkipFlowControl {
 		out = append(out, w.flowControlCheck(log, opt)...)
 	}
 	return out
+}
+
+// openedByPeerCheck: see NOTES.md of c05, section "wire-packets: intact packets are opened by the peer".
+//
+// 0-RTT (client -> server), only when the server accepted 0-RTT. A 0-RTT packet P is judged when
+//   - the observer opened it (the client protected it correctly) and it is ack-eliciting,
+//   - it was delivered intact; td = first delivery,
+//   - the server demonstrably held the 0-RTT keys before td: it had SENT a Handshake or 1-RTT packet at a time < td (the
+//     keys of all three levels are installed while it processes the ClientHello; 0-RTT packets that arrive earlier are
+//     queued with a limit and may be dropped: server.go zeroRTTQueue, protocol.Max0RTTQueueLen / MaxUndecryptablePackets),
+//   - it still held them: td is earlier than the first delivery of a short-header datagram of the client and not later
+//     than the delivery of the client's Finished (cryptoSetup.Get1RTTOpener drops the 0-RTT opener 3 PTO after
+//     handshakeCompleteTime, which is the zero time until the handshake completes: in effect with the first 1-RTT
+//     packet that arrives, as RFC 9001 4.9.3 allows),
+//   - after a Retry: it carries the connection ID chosen by the Retry (earlier ones are not routed to the connection),
+//   - it arrived in order: its packet number is above every application-data packet number delivered at an earlier
+//     instant (a late packet may lie below the "ignore packets below" mark and is dropped as a possible duplicate),
+//   - the received-packet history cannot have overflowed (protocol.MaxNumAckRanges ranges): the number of
+//     application-data packets sent until td + max_ack_delay that had not arrived intact by then, plus the largest
+//     number of datagrams delivered in one instant in that period (their processing order is arbitrary), is below 30,
+//   - the server was alive and able to send afterwards: it sent a 1-RTT packet without CONNECTION_CLOSE at a time
+//     >= td + max_ack_delay + slack, before any CONNECTION_CLOSE appeared on the wire.
+// Then some ACK frame in a 1-RTT packet the server sent at a time >= td covers P's packet number (fate of that packet
+// irrelevant). Duplicates are harmless (the first intact copy counts).
+//
+// Handshake (server -> client): a Handshake packet of the server is judged likewise when the client had sent a
+// Handshake packet at a time < td (it holds the Handshake keys), td is earlier than the first delivery of a 1-RTT packet
+// with HANDSHAKE_DONE or an ACK frame (the client drops the Handshake keys when the handshake is confirmed) and the client sent a Handshake packet
+// again at a time >= td (Handshake packets are acknowledged without delay): an ACK frame in a Handshake packet of the
+// client sent at a time >= td covers it.
+func openedByPeerCheck(log []*Record, opt WireOptions) (out []WireFinding, judged map[string]int) {
+	judged = map[string]int{}
+	type pk struct {
+		rec *Record
+		p   *Packet
+	}
+	var c2sApp, zero, sHS []pk
+	var sAcks, cHSAcks []pk // packets carrying ACK frames: server 1-RTT, client Handshake
+	tServerKeys, tClientHSKeys := time.Duration(-1), time.Duration(-1)
+	tClientFin, tHSDone, firstClose := time.Duration(-1), time.Duration(-1), time.Duration(-1)
+	tFirstShort := time.Duration(-1) // first delivery of a datagram of the client that contains a short-header packet
+	var retrySCID []byte
+	var serverLive, clientHSSends []time.Duration // send times of server 1-RTT packets without CONNECTION_CLOSE; of client Handshake packets
+	for _, rec := range log {
+		if rec.Forged {
+			continue
+		}
+		pkts, _ := rec.Pkts.([]*Packet)
+		intact := len(rec.Dlv) > 0 && !rec.Mutated
+		for _, p := range pkts {
+			if rec.Dir == "c2s" && len(rec.Dlv) > 0 && len(p.Raw) > 0 && !refwire.IsLongHeader(p.Raw[0]) && p.Kind != "dgram-padding" {
+				if tFirstShort < 0 || rec.Dlv[0] < tFirstShort {
+					tFirstShort = rec.Dlv[0]
+				}
+			}
+			hasAck, hasCrypto, hasClose, hasDone := false, false, false, false
+			for _, f := range p.Frames {
+				switch f.Name {
+				case refwire.NameAck:
+					hasAck = true
+				case refwire.NameCrypto:
+					hasCrypto = true
+				case refwire.NameConnectionClose:
+					hasClose = true
+				case refwire.NameHandshakeDone:
+					hasDone = true
+				}
+			}
+			if hasClose && (firstClose < 0 || rec.T < firstClose) {
+				firstClose = rec.T
+			}
+			if rec.Dir == "c2s" {
+				switch p.Kind {
+				case "0rtt", "1rtt":
+					c2sApp = append(c2sApp, pk{rec, p})
+					if p.Kind == "0rtt" {
+						zero = append(zero, pk{rec, p})
+					}
+				case "handshake":
+					clientHSSends = append(clientHSSends, rec.T)
+					if tClientHSKeys < 0 || rec.T < tClientHSKeys {
+						tClientHSKeys = rec.T
+					}
+					if hasAck {
+						cHSAcks = append(cHSAcks, pk{rec, p})
+					}
+					if hasCrypto && intact && (tClientFin < 0 || rec.Dlv[0] < tClientFin) {
+						tClientFin = rec.Dlv[0]
+					}
+				}
+			} else {
+				switch p.Kind {
+				case "retry":
+					retrySCID = p.SCID
+				case "handshake", "1rtt":
+					if tServerKeys < 0 || rec.T < tServerKeys {
+						tServerKeys = rec.T
+					}
+					if p.Kind == "handshake" {
+						sHS = append(sHS, pk{rec, p})
+					} else {
+						if hasAck {
+							sAcks = append(sAcks, pk{rec, p})
+						}
+						if !hasClose {
+							serverLive = append(serverLive, rec.T)
+						}
+						// the client drops its Handshake keys when the handshake is confirmed: HANDSHAKE_DONE, or an
+						// acknowledgement for a 1-RTT packet (any delivered 1-RTT ACK is taken as one)
+						if (hasDone || hasAck) && len(rec.Dlv) > 0 && (tHSDone < 0 || rec.Dlv[0] < tHSDone) {
+							tHSDone = rec.Dlv[0]
+						}
+					}
+				}
+			}
+		}
+	}
+	covered := func(acks []pk, pn uint64, from time.Duration) bool {
+		for _, a := range acks {
+			if a.rec.T < from {
+				continue
+			}
+			for _, f := range a.p.Frames {
+				if f.Name != refwire.NameAck {
+					continue
+				}
+				for _, rg := range f.AckRanges {
+					if rg.Smallest <= pn && pn <= rg.Largest {
+						return true
+					}
+				}
+			}
+		}
+		return false
+	}
+	sentAtOrAfter := func(ts []time.Duration, t time.Duration) bool {
+		for _, x := range ts {
+			if x >= t && (firstClose < 0 || x < firstClose) {
+				return true
+			}
+		}
+		return false
+	}
+	add := func(sig, f string, a ...any) {
+		if len(out) < 3 {
+			out = append(out, WireFinding{sig, fmt.Sprintf(f, a...)})
+		}
+	}
+
+	// ---- 0-RTT
+	if opt.ZeroRTTAccepted && tServerKeys >= 0 {
+		// deliveries of datagrams to the server per instant (processing order within an instant is arbitrary)
+		group := map[time.Duration]int{}
+		for _, rec := range log {
+			if rec.Dir == "c2s" && !rec.Forged {
+				for _, t := range rec.Dlv {
+					group[t]++
+				}
+			}
+		}
+		for _, z := range zero {
+			rec, p := z.rec, z.p
+			if !p.AckEliciting || len(rec.Dlv) == 0 || rec.Mutated || p.Err != "" {
+				continue
+			}
+			td := rec.Dlv[0]
+			if !(tServerKeys < td) || (tClientFin >= 0 && td > tClientFin) || (tFirstShort >= 0 && td >= tFirstShort) {
+				continue
+			}
+			if retrySCID != nil && !HexEq(p.DCID, retrySCID) {
+				continue
+			}
+			horizon := td + maxAckDelay + ackSlack
+			inOrder, gaps := true, 0
+			for _, o := range c2sApp {
+				if o.p == p {
+					continue
+				}
+				od := time.Duration(-1)
+				if len(o.rec.Dlv) > 0 && !o.rec.Mutated {
+					od = o.rec.Dlv[0]
+				}
+				if od >= 0 && od < td && o.p.PN > p.PN {
+					inOrder = false
+					break
+				}
+				if o.rec.T <= horizon && (od < 0 || od > horizon) {
+					gaps++
+				}
+			}
+			if !inOrder {
+				continue
+			}
+			burst := 0
+			for t, n := range group {
+				if t >= td && t <= horizon && n > burst {
+					burst = n
+				}
+			}
+			if gaps+burst+2 >= 32 {
+				judged["0rtt-skipped:history-may-overflow"]++
+				continue
+			}
+			if !sentAtOrAfter(serverLive, horizon) {
+				judged["0rtt-skipped:server-not-seen-alive"]++
+				continue
+			}
+			judged["0rtt-judged"]++
+			if !covered(sAcks, p.PN, td) {
+				add("C05/wire/intact-0rtt-not-opened", "datagram #%d (c2s, sent %v): 0-RTT packet pn %d (ack-eliciting, %d bytes, opens with the early traffic secret derived from the resumption PSK) was delivered intact to the server at %v - after the server had sent its first Handshake/1-RTT packet (%v), before the first short-header packet of the client arrived (%v) and not later than its Finished (%v; -1ns = never), in order, 0-RTT accepted - and the server sent 1-RTT packets afterwards, but no ACK frame the server sent from %v on covers it: the server did not open a correctly protected packet (RFC 9001 5.3-5.4)",
+					rec.Seq, rec.T, p.PN, p.Len, td, tServerKeys, tFirstShort, tClientFin, td)
+			}
+		}
+	}
+
+	// ---- Handshake packets of the server
+	if tClientHSKeys >= 0 {
+		for _, h := range sHS {
+			rec, p := h.rec, h.p
+			if !p.AckEliciting || len(rec.Dlv) == 0 || rec.Mutated || p.Err != "" {
+				continue
+			}
+			td := rec.Dlv[0]
+			if !(tClientHSKeys < td) || (tHSDone >= 0 && td >= tHSDone) {
+				continue
+			}
+			// in order among the server's Handshake packets
+			inOrder := true
+			for _, o := range sHS {
+				if o.p != p && len(o.rec.Dlv) > 0 && !o.rec.Mutated && o.rec.Dlv[0] < td && o.p.PN > p.PN {
+					inOrder = false
+					break
+				}
+			}
+			if !inOrder || !sentAtOrAfter(clientHSSends, td) {
+				continue
+			}
+			judged["handshake-judged"]++
+			if !covered(cHSAcks, p.PN, td) {
+				add("C05/wire/intact-handshake-not-opened", "datagram #%d (s2c, sent %v): Handshake packet pn %d (ack-eliciting, %d bytes, opens with the key-log secret) was delivered intact to the client at %v - after the client had sent its first Handshake packet (%v), before a 1-RTT packet with HANDSHAKE_DONE or an ACK reached it (%v; -1ns = never), in order - and the client sent Handshake packets afterwards, but no ACK frame in a Handshake packet it sent from %v on covers it: the client did not open a correctly protected packet",
+					rec.Seq, rec.T, p.PN, p.Len, td, tClientHSKeys, tHSDone, td)
+			}
+		}
+	}
+	return out, judged
 }
 
 const (
